@@ -7,6 +7,16 @@ NOTES = ("All checks: bin/check <id>. Each run regenerates coq/Gen from /repo, r
          "Known findings: KNOWN_FINDINGS.txt.")
 NOT_APPLICABLE = {}
 CLAIMED = {
+    "C01": {
+        "text": "Theorems: renaming preserves lexical resolution (and captures nothing) and interface satisfaction under the no-clash caveat; entry points, "
+                "exported methods, tests, plain packages are fixed points of the decision; linkname rewriting yields exactly the declaring build's import "
+                "path and name, and leaves unknown targets untouched. Tied by the decision correspondence on every identifier of a real -debugdir build, a "
+                "transformLinkname oracle stream against the Coq model, and differential runs (stdout + exit status) of two corpus modules (asm, linkname, "
+                "-X, generics, interfaces, embedding, labels, init order) under default/-tiny/-seed/-literals. Partial: compiler/linker semantics, go/printer "
+                "and the assembly rewriter are exercised, not proved.",
+        "note": "Trusted: Coq kernel; objmap; oracle; python hashlib; two fixed corpus modules (a program generator is future work). No axioms.",
+        "technique": "Coq proof over the renaming model + in-Coq correspondence on a real build's garbled tree and on linkname rewriting + differential execution",
+    },
     "C13": {
         "text": "Theorems: the name of an object is one function of its descriptor and its declaring package's salt (no 'who asks' argument), renaming "
                 "preserves lexical resolution and interface satisfaction under the no-clash condition, a map entry equals the declaration name, reverse "
